@@ -101,7 +101,7 @@ def run(rep):
             rep.fail("codec-symmetric", nm, "%s: written as %s, read as %s" % (nm, wc, r), site=m["de_body"].loc())
     # ---- every custom codec used by a stored type is a lossless, analysed writer/reader pair
     from .c15 import codec_pairs
-    codec_pairs(rep, {k: v for k, v in wm.items() if k in clo})
+    codec_pairs(rep, {k: v for k, v in wm.items() if k in clo}, only_used=True)
     # ---- generators imply validators
     nn = method(prog, NONCE, "new")
     if rep.anchor("Nonce::new", nn):
